@@ -6,6 +6,7 @@ import vlib
 
 OVERLAY = {"zz_verif_tunneltime_test.go": os.path.join(vlib.HARNESS, "overlay", "prometheus", "zz_verif_tunneltime_test.go")}
 SCALE = 1000
+EMPTY_KEY = 2          # key 2 of every key universe has the empty string as its ID (vfEmptyKey in the harness)
 SIG_NEG = {"module": "TunnelTime", "kind": "negative-increment",
            "where": "prometheus/metrics.go Collect reads now() before Lock"}
 
@@ -173,7 +174,9 @@ def densify(traces):
                 if not r.get("panic"):
                     for kname, v in (r.get("keyv") or {}).items():
                         m = re.match(r"^k(\d+)$", kname)
-                        if m and 1 <= int(m.group(1)) <= NK:
+                        if kname == "" and EMPTY_KEY <= NK and t[0].get("mode") != "concurrent":
+                            key[EMPTY_KEY - 1] += _units(v, unit)
+                        elif m and 1 <= int(m.group(1)) <= NK and (int(m.group(1)) != EMPTY_KEY or t[0].get("mode") == "concurrent"):
                             key[int(m.group(1)) - 1] += _units(v, unit)
                         else:
                             key[NK] += _units(v, unit)
@@ -248,6 +251,8 @@ def validate(ctx, traces, mode, desc, *, behaviours=None, timeout=900, report=Tr
 
 def schedule_text(trace):
     parts = []
+    empty = trace and trace[0].get("mode") != "concurrent"
+    kn = lambda k: ('k%d[id=""]' % k) if (empty and k == EMPTY_KEY) else "k%d" % k
     for r in trace[1:]:
         ev = r["ev"]
         fm = {1: "/16B", 2: "/4B", 3: "/str"}.get(r.get("f"), "")
@@ -256,9 +261,9 @@ def schedule_text(trace):
         elif ev in ("Open",):
             parts.append("Open(c%d,ip%d%s)" % (r["c"], r["ip"], fm))
         elif ev == "Auth":
-            parts.append("Auth(c%d,k%d)" % (r["c"], r["key"]))
+            parts.append("Auth(c%d,%s)" % (r["c"], kn(r["key"])))
         elif ev == "NatAdd":
-            parts.append("NatAdd(c%d,ip%d%s,k%d)" % (r["c"], r["ip"], fm, r["key"]))
+            parts.append("NatAdd(c%d,ip%d%s,%s)" % (r["c"], r["ip"], fm, kn(r["key"])))
         elif ev in ("Close", "NatRemove", "RemoveAgain", "Probe", "Packet"):
             parts.append("%s(c%d)" % (ev, r["c"]))
         elif ev == "Tick":
